@@ -101,3 +101,35 @@ Theorem C15_example :
   move (transform_position rot ex_pos) (transform_move rot ex_crush 4) <> None /\
   transform_position rot ex_pos <> ex_pos.
 Proof. exact ex_hypotheses. Qed.
+
+(* ---- compositions (work package X; proofs/ComposeSymmetry.v) ---- *)
+From TV Require spec.Rules proofs.Generator proofs.ComposeSymmetry.
+(* C15 + C03: the id table of a size is closed under every symmetry, and the transform of moves is one-to-one *)
+Theorem C15_table_closed_under_syms : forall g n m, In g syms -> 0 <= n ->
+  (In m (table n) <-> In (transform_move g m n) (table n)).
+Proof. exact ComposeSymmetry.table_closed_under_syms. Qed.
+Theorem C15_transform_move_injective : forall g n m m', In g syms ->
+  transform_move g m n = transform_move g m' n -> m = m'.
+Proof. exact ComposeSymmetry.transform_move_injective. Qed.
+(* C15 + C03: the set of legal moves (accepted table entries, C03_populate_reaches_all) of the transformed position is the transform of the set of legal moves *)
+Theorem C15_legal_moves_transform : forall g p m, wf p -> In g syms ->
+  (In m (filter (Generator.accepted p) (table (size p))) <->
+   In (transform_move g m (size p))
+      (filter (Generator.accepted (transform_position g p)) (table (size (transform_position g p))))).
+Proof. exact ComposeSymmetry.legal_moves_transform. Qed.
+(* ... as lists: transforming the legal moves gives a permutation of the legal moves of the transformed position *)
+Theorem C15_legal_moves_transform_perm : forall g p, wf p -> In g syms ->
+  Permutation.Permutation
+    (map (fun m => transform_move g m (size p)) (filter (Generator.accepted p) (table (size p))))
+    (filter (Generator.accepted (transform_position g p)) (table (size p))).
+Proof. exact ComposeSymmetry.legal_moves_transform_perm. Qed.
+(* C15 + C01 + C03: the same in rulebook terms - a rulebook step is carried to a rulebook step between the transformed positions, and the canonical rulebook-legal moves correspond *)
+Theorem C15_rulebook_step_transform : forall g p m p', Rules.wf_pos p -> In g syms ->
+  Rules.legal_step p m p' ->
+  Rules.legal_step (transform_position g p) (transform_move g m (size p)) (transform_position g p').
+Proof. exact ComposeSymmetry.rulebook_step_transform. Qed.
+Theorem C15_rulebook_moves_transform : forall g p m, Rules.wf_pos p -> In g syms ->
+  ((Generator.canonical m /\ exists p', Rules.legal_step p m p') <->
+   (Generator.canonical (transform_move g m (size p)) /\
+    exists p'', Rules.legal_step (transform_position g p) (transform_move g m (size p)) p'')).
+Proof. exact ComposeSymmetry.rulebook_moves_transform. Qed.
